@@ -33,6 +33,10 @@ func Minimal() []Item {
    "columns":[{"name":"A"},{"name":"B C","alias":"BC"}]},
  "transform_declarations":{"FINAL_OUTPUT":{"xpath":".[A != 'skip']","object":{"a":{"xpath":"A"},"bc":{"xpath":"BC"}}}}}`,
 			Inputs: []string{"title\nA|B C\n----\n1|2\nskip|3\n\"4|5\"\n6|7\n", "t\nA|B C|D\n\n\n1|2|3\n"}},
+		{Name: "csv/header-extra-columns", Format: "csv", Schema: `{` + hdr("csv") + `,
+ "file_declaration":{"delimiter":",","header_row_index":1,"data_row_index":2,"columns":[{"name":"A"},{"name":"B"}]},
+ "transform_declarations":{"FINAL_OUTPUT":{"object":{"a":{"xpath":"A"},"b":{"xpath":"B"}}}}}`,
+			Inputs: []string{"A,B,NOTE,MORE\n1,2,x,y\n3,4,z,w\n5,6\n", "A,B\n1,2\n"}},
 		{Name: "json/long-values", Format: "json", Schema: `{` + hdr("json") + `,
  "transform_declarations":{"FINAL_OUTPUT":{"xpath":"/*","object":{"a":{"xpath":"a"}}}}}`,
 			Inputs: []string{`[{"a":"1` + strings.Repeat("x", 5000) + `"},{"a":"2` + strings.Repeat("y", 5000) + `"},{"a":"3` + strings.Repeat("z", 5000) + `"}]`}},
